@@ -30,7 +30,10 @@ impl V {
 }
 impl PartialEq for V {
     fn eq(&self, o: &V) -> bool {
-        self.class() != 0 && (self.class() == o.class() || (self.class() >= 100 && self.class() + 1 == o.class()))
+        // irreflexive for class 0 and for classes 1000..2000; asymmetric: a class >= 100 also equals class + 1 on the right — so a value that
+        // is not equal to itself (1001) can still be equal to a stored one (1000 == 1001)
+        let selfeq = !(1000..2000).contains(&self.class());
+        self.class() != 0 && ((self.class() == o.class() && selfeq) || (self.class() >= 100 && self.class() + 1 == o.class()))
     }
 }
 
